@@ -179,7 +179,18 @@ def get_n_chunks(iterable_of_args: Iterable, iterable_len: Optional[int] = None,
     if chunk_size is None:
         chunk_size = n_tasks / (n_splits or (n_jobs or cpu_count()) * 4)
 
-    return min(n_tasks, math.ceil(n_tasks / chunk_size))
+    # Count the chunks the same way chunk_tasks creates them. A closed-form ceil(n_tasks / chunk_size) can be off by
+    # one due to floating point rounding (and divides by zero for empty input), which makes the announced number of
+    # chunks differ from the number of chunks actually produced
+    n_chunks = 0
+    n_elements = 0
+    current_chunk_size = chunk_size
+    while n_elements < n_tasks:
+        n_elements += max(1, math.ceil(current_chunk_size))
+        current_chunk_size = (current_chunk_size + chunk_size) - math.ceil(current_chunk_size)
+        n_chunks += 1
+
+    return n_chunks
 
 
 def make_single_arguments(iterable_of_args: Iterable, generator: bool = True) -> Union[List, Generator]:
